@@ -2,7 +2,8 @@ package main
 
 // Real gmw sessions over loopback TCP (gmw.CreateNetwork / gmw.JoinNetwork /
 // Connect / Run / Pool.Get / Close), every party a goroutine group of its
-// own, random start order and delays, everything under a deadline.
+// own, random start order and delays.  Hang detection is progress based (see
+// sessCfg.stall) so that a loaded machine does not produce false alarms.
 
 import (
 	"fmt"
@@ -45,8 +46,14 @@ type sessCfg struct {
 	delays   []time.Duration
 	delays2  []time.Duration
 	order    []int
-	deadline time.Duration
-	drain    int
+	// A session is declared hung when nothing observable has moved for
+	// `stall` (bytes on any connection, pool words, phase counters), or when
+	// it is still running after `hardCap`.  A healthy session takes well
+	// under a second; the limits are minutes because the machine may be
+	// heavily loaded.
+	stall   time.Duration
+	hardCap time.Duration
+	drain   int
 }
 
 type sessOut struct {
@@ -59,6 +66,7 @@ type sessOut struct {
 	drained  []*gmw.Triples
 	closeErr []error
 	timeout  string
+	stalledS float64 // seconds without observable progress when given up
 	elapsed  time.Duration
 }
 
@@ -73,6 +81,31 @@ func waitAll(wg *sync.WaitGroup, d time.Duration) bool {
 	}
 }
 
+// watch waits for wg; it gives up when progress() has not changed for
+// `stall` or when `end` has passed.  Returns ok and the length of the last
+// period without progress.
+func watch(wg *sync.WaitGroup, progress func() uint64, stall time.Duration, end time.Time) (bool, time.Duration) {
+	ch := make(chan struct{})
+	go func() { wg.Wait(); close(ch) }()
+	last := progress()
+	lastChange := time.Now()
+	tick := time.NewTicker(200 * time.Millisecond)
+	defer tick.Stop()
+	for {
+		select {
+		case <-ch:
+			return true, 0
+		case <-tick.C:
+			now := time.Now()
+			if v := progress(); v != last {
+				last, lastChange = v, now
+			}
+			if now.Sub(lastChange) > stall || now.After(end) {
+				return false, now.Sub(lastChange)
+			}
+		}
+	}
+}
 
 func runSession(cfg *sessCfg) *sessOut {
 	c := cfg.pc.circ
@@ -83,15 +116,34 @@ func runSession(cfg *sessCfg) *sessOut {
 		drained: make([]*gmw.Triples, n), closeErr: make([]error, n),
 	}
 	start := time.Now()
-	end := start.Add(cfg.deadline)
-	left := func() time.Duration {
-		d := time.Until(end)
-		if d < time.Millisecond {
-			d = time.Millisecond
-		}
-		return d
-	}
+	end := start.Add(cfg.hardCap)
 	defer func() { so.elapsed = time.Since(start) }()
+
+	// observable progress: phase counters, bytes moved on the connections
+	// of every connected party, pool levels and batch counters
+	connected := make([]int32, n)
+	var phase uint64
+	progress := func() uint64 {
+		v := atomic.LoadUint64(&phase)
+		for p := 0; p < n; p++ {
+			if atomic.LoadInt32(&connected[p]) == 0 {
+				continue
+			}
+			nw := so.nws[p]
+			on, off := nw.Stats()
+			v = v*1000003 + on.Sum() + off.Sum()
+			v = v*1000003 + uint64(nw.Pool.VerifWords()) + atomic.LoadUint64(&nw.Pool.NumBatches)<<20
+		}
+		return v
+	}
+	wait := func(wg *sync.WaitGroup, what string) bool {
+		ok, idle := watch(wg, progress, cfg.stall, end)
+		if !ok {
+			so.timeout = what
+			so.stalledS = idle.Seconds()
+		}
+		return ok
+	}
 
 	// The leader's listener exists before any peer dials it (as with
 	// apps/garbled, where a peer that finds no leader exits).
@@ -126,11 +178,16 @@ func runSession(cfg *sessCfg) *sessOut {
 			}
 		}
 		so.connErr[p] = so.nws[p].Connect(sizes(p))
+		if so.connErr[p] == nil {
+			atomic.StoreInt32(&connected[p], 1)
+		}
+		atomic.AddUint64(&phase, 1)
 	}
 	run := func(p int) {
 		time.Sleep(cfg.delays2[p])
 		res, err := so.nws[p].Run(cfg.inputs[p], c, false)
 		so.results[p], so.runErr[p] = res, err
+		atomic.AddUint64(&phase, 1)
 	}
 	closeAll := func() {
 		var wg sync.WaitGroup
@@ -149,9 +206,10 @@ func runSession(cfg *sessCfg) *sessOut {
 				so.closeErr[p] = so.nws[p].Close()
 			}(p)
 		}
-		if !waitAll(&wg, 10*time.Second) {
+		if ok, idle := watch(&wg, progress, cfg.stall, time.Now().Add(cfg.hardCap)); !ok {
 			if so.timeout == "" {
 				so.timeout = "close"
+				so.stalledS = idle.Seconds()
 			}
 		}
 	}
@@ -180,8 +238,7 @@ func runSession(cfg *sessCfg) *sessOut {
 				guard(p, run, so.runErr)()
 			}(p)
 		}
-		if !waitAll(&wg, left()) {
-			so.timeout = "connect+run"
+		if !wait(&wg, "connect+run") {
 			return so
 		}
 	} else {
@@ -189,8 +246,7 @@ func runSession(cfg *sessCfg) *sessOut {
 			wg.Add(1)
 			go func(p int) { defer wg.Done(); guard(p, connect, so.connErr)() }(p)
 		}
-		if !waitAll(&wg, left()) {
-			so.timeout = "connect"
+		if !wait(&wg, "connect") {
 			return so
 		}
 		for p := 0; p < n; p++ {
@@ -204,6 +260,7 @@ func runSession(cfg *sessCfg) *sessOut {
 		// lowWaterMark (4096) words; all pools equal and unchanged over
 		// three polls
 		last, same := -1, 0
+		fillProgress, fillChange := progress(), time.Now()
 		for {
 			w0 := so.nws[0].Pool.VerifWords()
 			ok := w0 > 4096
@@ -221,8 +278,13 @@ func runSession(cfg *sessCfg) *sessOut {
 			if ok && same >= 3 {
 				break
 			}
-			if time.Now().After(end) {
+			now := time.Now()
+			if v := progress(); v != fillProgress {
+				fillProgress, fillChange = v, now
+			}
+			if now.Sub(fillChange) > cfg.stall || now.After(end) {
 				so.timeout = "pool-fill"
+				so.stalledS = now.Sub(fillChange).Seconds()
 				return so
 			}
 			time.Sleep(3 * time.Millisecond)
@@ -234,8 +296,7 @@ func runSession(cfg *sessCfg) *sessOut {
 			wg.Add(1)
 			go func(p int) { defer wg.Done(); guard(p, run, so.runErr)() }(p)
 		}
-		if !waitAll(&wg, left()) {
-			so.timeout = "run"
+		if !wait(&wg, "run") {
 			return so
 		}
 	}
@@ -256,10 +317,10 @@ func runSession(cfg *sessCfg) *sessOut {
 			t := new(gmw.Triples)
 			so.nws[p].Pool.Get(cfg.drain, t)
 			so.drained[p] = t
+			atomic.AddUint64(&phase, 1)
 		}(p)
 	}
-	if !waitAll(&wg, left()) {
-		so.timeout = "drain"
+	if !wait(&wg, "drain") {
 		return so
 	}
 	closeAll()
